@@ -1,2 +1,130 @@
--- stub driver for C10: replaced when the property's model exists
-def main : IO Unit := pure ()
+import Snel.Model.Proto
+import Snel.Model.Order
+open Snel Snel.Proto Snel.Order
+
+/-! Line-protocol driver for C10.
+
+Value tokens: `n` | `b0` `b1` | `i<dec>` | `f<16 hex digits>` | `t<dec>` | `s<hex>` | `x<hex>`
+(`s-` / `x-` = empty).
+
+* `conv v`                      → `u=.. i=.. f=.. b=.. r=..`   (the five conversions)
+* `cmp a b c`                   → nine letters L/E/G: ab ba bc cb ac ca aa bb cc
+* `merge asc lim off S (F (R (key id)*)*)*` → ids in output order (two-level ordered query)
+* `merge1 asc lim off F (R (key id)*)*`     → ids (one merger instance)
+* `accept lim off N id*`        → indices of the accepted rows
+* `handler ordered sequence lim off` → verdict
+-/
+
+def hexNat (s : String) : Option Nat :=
+  s.toList.foldlM (fun acc c => (hexVal c).map (fun v => acc * 16 + v)) 0
+
+def parseSV (tok : String) : Option SV :=
+  match tok.toList with
+  | ['n'] => some .null
+  | ['b', '0'] => some (.bool false)
+  | ['b', '1'] => some (.bool true)
+  | 'i' :: r => (String.ofList r).toInt?.map .int
+  | 't' :: r => (String.ofList r).toInt?.map .ts
+  | 'f' :: r => if r.length = 16 then (hexNat (String.ofList r)).map .float else none
+  | 's' :: r => (unhex (String.ofList r)).map fun bs => .utf8 (bs.map (·.toNat))
+  | 'x' :: r => (unhex (String.ofList r)).map fun bs => .bin (bs.map (·.toNat))
+  | _ => none
+
+def hex16 (n : Nat) : String :=
+  let ds := Nat.toDigits 16 n
+  String.ofList (List.replicate (16 - ds.length) '0' ++ ds)
+
+def hexOfNats (l : List Nat) : String := hexOfBytes (l.map UInt8.ofNat)
+
+def optStr (o : Option String) : String := o.getD "-"
+
+def ordLetter : Ordering → Char
+  | .lt => 'L'
+  | .eq => 'E'
+  | .gt => 'G'
+
+def optNat (s : String) : Option (Option Nat) :=
+  if s == "-" then some none else s.toNat?.map some
+
+abbrev Row := SV × Nat
+
+def rowCmp (a b : Row) : Ordering := SV.compareScalarValues a.1 b.1
+
+/-- parse `count` rows `(key id)` -/
+def parseRows : Nat → List String → Option (List Row × List String)
+  | 0, ts => some ([], ts)
+  | k + 1, key :: id :: ts => do
+    let v ← parseSV key
+    let i ← id.toNat?
+    let (rs, rest) ← parseRows k ts
+    some ((v, i) :: rs, rest)
+  | _, _ => none
+
+def parseFlows : Nat → List String → Option (List (List Row) × List String)
+  | 0, ts => some ([], ts)
+  | k + 1, cnt :: ts => do
+    let c ← cnt.toNat?
+    let (rows, rest) ← parseRows c ts
+    let (fs, rest') ← parseFlows k rest
+    some (rows :: fs, rest')
+  | _, _ => none
+
+def parseShards : Nat → List String → Option (List (List (List Row)) × List String)
+  | 0, ts => some ([], ts)
+  | k + 1, cnt :: ts => do
+    let c ← cnt.toNat?
+    let (flows, rest) ← parseFlows c ts
+    let (ss, rest') ← parseShards k rest
+    some (flows :: ss, rest')
+  | _, _ => none
+
+def idsLine (rows : List Row) : String :=
+  if rows.isEmpty then "-" else " ".intercalate (rows.map fun r => toString r.2)
+
+def answer (line : String) : String :=
+  match words line with
+  | ["conv", v] =>
+    match parseSV v with
+    | some v =>
+      s!"u={optStr (v.asU64.map toString)} i={optStr (v.asI64.map toString)} f={optStr (v.asF64.map hex16)} b={optStr (v.asBool.map fun b => if b then "1" else "0")} r={hexOfNats v.toStringRepr}"
+    | none => "bad-op"
+  | ["cmp", a, b, c] =>
+    match parseSV a, parseSV b, parseSV c with
+    | some a, some b, some c =>
+      String.ofList ([SV.compare a b, SV.compare b a, SV.compare b c, SV.compare c b, SV.compare a c,
+        SV.compare c a, SV.compare a a, SV.compare b b, SV.compare c c].map ordLetter)
+    | _, _, _ => "bad-op"
+  | "merge" :: asc :: lim :: off :: ns :: rest =>
+    match asc.toNat?, optNat lim, optNat off, ns.toNat? with
+    | some asc, some lim, some off, some ns =>
+      match parseShards ns rest with
+      | some (shards, []) =>
+        idsLine (orderedQuery (heapPQ (itemCmp (asc != 0) rowCmp)) shards lim off)
+      | _ => "bad-op"
+    | _, _, _, _ => "bad-op"
+  | "merge1" :: asc :: lim :: off :: nf :: rest =>
+    match asc.toNat?, optNat lim, optNat off, nf.toNat? with
+    | some asc, some lim, some off, some nf =>
+      match parseFlows nf rest with
+      | some (flows, []) =>
+        idsLine (mergeRun (heapPQ (itemCmp (asc != 0) rowCmp)) flows (off.getD 0) lim)
+      | _ => "bad-op"
+    | _, _, _, _ => "bad-op"
+  | "accept" :: lim :: off :: n :: ids =>
+    match optNat lim, optNat off, n.toNat?, ids.mapM optNat with
+    | some lim, some off, some n, some ids =>
+      if ids.length ≠ n then "bad-op" else
+      let rows := ids.zipIdx
+      let out := acceptRows lim off {} rows
+      if out.isEmpty then "-" else " ".intercalate (out.map fun r => toString r.2)
+    | _, _, _, _ => "bad-op"
+  | ["handler", ordered, sequence, lim, off] =>
+    match ordered.toNat?, sequence.toNat?, optNat lim, optNat off with
+    | some o, some s, some lim, some off =>
+      match handlerLimits (o != 0) (s != 0) lim off with
+      | .badRequestOffsetNeedsLimit => "bad-request offset-requires-limit"
+      | .run l f => s!"run {optStr (l.map toString)} {optStr (f.map toString)}"
+    | _, _, _, _ => "bad-op"
+  | _ => "bad-op"
+
+def main : IO Unit := serve answer
